@@ -99,8 +99,8 @@ Proof.
     rewrite <- app_assoc. exact H2.
 Qed.
 
-Lemma reset_flags_ok : forall c, flags_ok [] (reset_caps c).
-Proof. intros c. unfold flags_ok, reset_caps. cbn. repeat split; intros; discriminate. Qed.
+Lemma reset_flags_ok : forall g c, flags_ok [] (reset_caps g c).
+Proof. intros g c. unfold flags_ok, reset_caps. cbn. repeat split; intros; discriminate. Qed.
 
 (* fields not touched by the post-processing of set_encodings *)
 Lemma flags_ok_set_pref : forall l c v, flags_ok l c -> flags_ok l (set_pref c v).
@@ -116,8 +116,8 @@ Qed.
 Lemma set_encodings_flags : forall g c l, flags_ok l (fst (set_encodings g c l)).
 Proof.
   intros g c l. unfold set_encodings.
-  pose proof (apply_encs_flags g l (reset_caps c) [] (reset_flags_ok c)) as H.
-  destruct (apply_encs g (reset_caps c) l) as [c1 out]. cbn [fst] in *.
+  pose proof (apply_encs_flags g l (reset_caps g c) [] (reset_flags_ok g c)) as H.
+  destruct (apply_encs g (reset_caps g c) l) as [c1 out]. cbn [fst] in *.
   rewrite app_nil_r in H.
   assert (H' : flags_ok l c1).
   { eapply flags_ok_weaken; [|exact H]. intros e He. apply in_rev. exact He. }
@@ -134,7 +134,7 @@ Lemma set_encodings_cursorpos_needs_shape : forall g c l,
   c_cursorpos (fst (set_encodings g c l)) = true -> c_cursorshape (fst (set_encodings g c l)) = true.
 Proof.
   intros g c l. unfold set_encodings.
-  destruct (apply_encs g (reset_caps c) l) as [c1 out]. cbn [fst].
+  destruct (apply_encs g (reset_caps g c) l) as [c1 out]. cbn [fst].
   set (c2 := if c_pref c1 =? -1 then if c_pref c =? -1 then set_pref c1 enc_Raw else set_pref c1 (c_pref c) else c1).
   destruct (c_cursorpos c2 && negb (c_cursorshape c2)) eqn:E; cbn; intros H; [discriminate|].
   destruct (c_cursorshape c2); [reflexivity|]. rewrite H in E. discriminate.
@@ -175,8 +175,8 @@ Lemma set_encodings_pref : forall g c l, pref_ok c ->
   c_pref c' <> -1 /\ pref_ok c' /\ c_named c' = l ++ c_named c.
 Proof.
   intros g c l Hc. unfold set_encodings.
-  pose proof (apply_encs_pref g l (reset_caps c)) as P.
-  assert (N : c_named (fst (apply_encs g (reset_caps c) l)) = c_named c).
+  pose proof (apply_encs_pref g l (reset_caps g c)) as P.
+  assert (N : c_named (fst (apply_encs g (reset_caps g c) l)) = c_named c).
   { assert (G : forall l0 c0, c_named (fst (apply_encs g c0 l0)) = c_named c0).
     { induction l0 as [|e t IH]; intros c0; cbn [apply_encs]; [reflexivity|].
       destruct (apply_enc g c0 e) as [c1 i1] eqn:E1. destruct (apply_encs g c1 t) as [c2 i2] eqn:E2. cbn [fst].
@@ -187,8 +187,8 @@ Proof.
              | |- context [if ?b then _ else _] => destruct b eqn:?
              end; reflexivity. }
     rewrite G. reflexivity. }
-  destruct (apply_encs g (reset_caps c) l) as [c1 out]. cbn [fst] in *.
-  change (c_pref (reset_caps c)) with (-1) in P.
+  destruct (apply_encs g (reset_caps g c) l) as [c1 out]. cbn [fst] in *.
+  change (c_pref (reset_caps g c)) with (-1) in P.
   set (c2 := if c_pref c1 =? -1 then if c_pref c =? -1 then set_pref c1 enc_Raw else set_pref c1 (c_pref c) else c1).
   assert (Hn2 : c_named c2 = c_named c).
   { unfold c2. destruct (c_pref c1 =? -1); [destruct (c_pref c =? -1)|]; cbn; assumption. }
@@ -471,3 +471,36 @@ Proof.
   intros Hne. destruct (sn_copy sn) eqn:Ec; [|reflexivity].
   exfalso. apply Hne. apply plan_copy_empty. exact Ec.
 Qed.
+
+(* ---- the repaired request path (d5a464d): what enters requestedRegion is never degenerate ---- *)
+Lemma clip_request_nondegenerate : forall fbw fbh x y w h x' y' w' h',
+  0 <= x < 65536 -> 0 <= y < 65536 -> 0 <= w < 65536 -> 0 <= h < 65536 ->
+  clip_request fbw fbh x y w h = Some (x', y', w', h') ->
+  x' = x /\ y' = y /\ 1 <= w' <= w /\ 1 <= h' <= h /\ x' + w' <= fbw /\ y' + h' <= fbh.
+Proof.
+  intros fbw fbh x y w h x' y' w' h' Hx Hy Hw Hh H. unfold clip_request in H.
+  pose proof (Z.mod_pos_bound (fbw - x) 65536 ltac:(lia)) as Mw.
+  pose proof (Z.mod_pos_bound (fbh - y) 65536 ltac:(lia)) as Mh.
+  assert (Sw : 0 <= fbw - x < 65536 -> (fbw - x) mod 65536 = fbw - x) by (intro; apply Z.mod_small; lia).
+  assert (Sh : 0 <= fbh - y < 65536 -> (fbh - y) mod 65536 = fbh - y) by (intro; apply Z.mod_small; lia).
+  set (mw := (fbw - x) mod 65536) in *. set (mh := (fbh - y) mod 65536) in *.
+  destruct (w >? fbw - x) eqn:E1.
+  - destruct (mw >? fbw - x) eqn:E2; [discriminate|].
+    destruct (h >? fbh - y) eqn:E3.
+    + destruct (mh >? fbh - y) eqn:E4; [discriminate|].
+      destruct ((mw =? 0) || (mh =? 0)) eqn:E5; [discriminate|]. inversion H; subst. lia.
+    + destruct (h >? fbh - y) eqn:E4; [discriminate|].
+      destruct ((mw =? 0) || (h =? 0)) eqn:E5; [discriminate|]. inversion H; subst. lia.
+  - destruct (w >? fbw - x) eqn:E2; [discriminate|].
+    destruct (h >? fbh - y) eqn:E3.
+    + destruct (mh >? fbh - y) eqn:E4; [discriminate|].
+      destruct ((w =? 0) || (mh =? 0)) eqn:E5; [discriminate|]. inversion H; subst. lia.
+    + destruct (h >? fbh - y) eqn:E4; [discriminate|].
+      destruct ((w =? 0) || (h =? 0)) eqn:E5; [discriminate|]. inversion H; subst. lia.
+Qed.
+
+Lemma clip_request_examples :
+  clip_request 20 10 3 3 0 4 = None /\ clip_request 20 10 3 3 4 0 = None /\
+  clip_request 20 10 20 3 5 4 = None /\ clip_request 20 10 30000 3 5 5 = None /\
+  clip_request 20 10 19 9 100 100 = Some (19, 9, 1, 1) /\ clip_request 20 10 0 0 20 10 = Some (0, 0, 20, 10).
+Proof. repeat split; reflexivity. Qed.
